@@ -17,7 +17,7 @@ import tempfile
 from sim.canon import canon, show
 from sim.simfs import SimFS, crash_images
 from sim.storeenv import install_fs, lazy_cache, sim_cache, VTime
-from sim.values import gen_literal, big_literal
+from sim.values import gen_literal, big_literal, exact_size_literal, BOUNDARY_SIZES
 from sim.world import World, install_patches, HarnessError
 
 PROPERTY = "C17"
@@ -42,7 +42,7 @@ REAL_STUB = {
              "power loss -> crash images derived from the trace under A-FS", "realkill: process kill = os._exit at an op boundary"],
 }
 EXPECTED_PROBES = ["probe_nested_key", "probe_overwrite", "probe_big_value", "probe_crash_inside_set", "probe_unsynced_data_images"]
-WALL_CAP = {"quick": 300, "thorough": 3600}
+WALL_CAP = {"quick": 400, "thorough": 3600}
 
 _fc = None
 _kvs = None
@@ -62,7 +62,7 @@ def setup_worker():
 
 def plan(tier):
     if tier == "quick":
-        return [("simfs", {}, 480, 10), ("realkill", {"real": 1}, 48, 3), ("handles", {"handles": 2}, 240, 10)]
+        return [("simfs", {}, 360, 10), ("realkill", {"real": 1}, 48, 3), ("handles", {"handles": 2}, 160, 10)]
     return [("simfs", {}, 40000, 50), ("realkill", {"real": 1}, 1600, 10), ("handles", {"handles": 2}, 20000, 50)]
 
 
@@ -90,6 +90,9 @@ def gen_history(ch, reuse=False):
             lit = big_literal(ch)
         elif nsets <= 2 and ch.chance(1, 24, "huge"):
             lit = "!140000"          # pickles to > 1 MiB: larger than the store's cache limit
+        elif ch.chance(1, 10, "boundary"):
+            # serialized size exactly on / next to a buffer or chunk boundary (8 KiB, multiples of 64 KiB)
+            lit = exact_size_literal(ch.pick(BOUNDARY_SIZES, "bsize"))
         else:
             lit = gen_literal(ch, allow_undef=True)
         hist.append((k, lit))
@@ -122,12 +125,23 @@ def scenario(ch, cfg):
 
 def _run_simfs(ch, cfg, hist, nextra):
     fc, kvs = _fc, _kvs
+    # optionally a second writer thread with one or two sets of its own on the same keys (overlapping sets)
+    n1 = len(hist)
+    hist2 = []
+    # one or two live handles (store objects) on the same directory
+    nh = 2 if cfg.get("handles") else 1 + (ch.draw(3, "handles") == 0)
+    if ch.draw(3, "writer2") == 0:
+        for _ in range(1 + ch.draw(2, "n2")):
+            # through ONE store object the sets of a key are coordinated by its cache, so the second writer may use
+            # the first writer's keys; two store objects do not coordinate (nothing promises that), so there the
+            # second writer keeps to keys of its own
+            k2 = hist[nextra + ch.draw(n1 - nextra, "k2")][0] if nh == 1 else ch.pick(["w2/a", "w2b"], "k2own")
+            hist2.append((k2, gen_literal(ch, allow_undef=False, tag="v2")))
+    hist = list(hist) + hist2
     vals = _values(hist)
     w = World(ch, max_steps=30000, policy=ch.weighted([1, 1, 2], "policy"))
     fs = SimFS(w, ROOT)
     install_fs(fc, fs)
-    # one or two live handles (store objects) on the same directory
-    nh = 2 if cfg.get("handles") else 1 + (ch.draw(3, "handles") == 0)
     stores = [kvs.KeyValueStorage(ROOT) for _ in range(nh)]
     for st in stores:
         sim_cache(st.cache, w)
@@ -159,8 +173,23 @@ def _run_simfs(ch, cfg, hist, nextra):
 
     refused = set()
 
+    def writer2():
+        for j, (k, lit) in enumerate(hist2):
+            i = n1 + j
+            w.yield_point("writer2")
+            fs.mark("inv", i)
+            try:
+                stores[hsel[i]].set(k, vals[i])
+            except OSError as e:
+                if iofault is None or not iofault["fired"] or "injected" not in str(e):
+                    raise
+                fs.mark("failed", i)
+                continue
+            fs.mark("ret", i)
+            stats["probe_second_writer_set"] += 1
+
     def writer():
-        for i, ((k, lit), v) in enumerate(zip(hist, vals)):
+        for i, ((k, lit), v) in enumerate(zip(hist[:n1], vals[:n1])):
             cur["store"] = stores[hsel[i]]
             if iofault is not None and i >= nextra:
                 iofault["armed"] = True
@@ -225,12 +254,14 @@ def _run_simfs(ch, cfg, hist, nextra):
     a = w.spawn("writer", writer)
     if reader_keys:
         w.spawn("reader", reader)
+    a2 = w.spawn("writer2", writer2) if hist2 else None
     reason = w.run()
     violations = []
-    if not a.done:
-        violations.append({"sig": "C17:set-hangs", "msg": f"writer blocked at {a.desc} ({reason})"})
-    elif a.exc is not None:
-        violations.append({"sig": f"C17:set-raises:{type(a.exc).__name__}", "msg": str(a.exc)[:200]})
+    for wa in [a] + ([a2] if a2 is not None else []):
+        if not wa.done:
+            violations.append({"sig": "C17:set-hangs", "msg": f"{wa.name} blocked at {wa.desc} ({reason})"})
+        elif wa.exc is not None:
+            violations.append({"sig": f"C17:set-raises:{type(wa.exc).__name__}", "msg": f"{wa.name}: {str(wa.exc)[:200]}"})
     trace = list(fs.trace)
     w.shutdown()
     base = {"dirs": ["/", ROOT], "files": {}}
@@ -245,20 +276,33 @@ def _run_simfs(ch, cfg, hist, nextra):
         stats["probe_big_value"] += 1
     for upto in range(len(trace) + 1):
         # which sets had returned / were in progress at this crash point
-        returned = {}
-        inprog = None
-        for op in trace[:upto]:
+        # (several writers may overlap: per key the acceptable durable values are those of the returned sets that
+        # no later-invoked returned set of the same key supersedes; a key with a set in progress is exempt)
+        inv_at, ret_at, open_sets, failed_at = {}, {}, set(), {}
+        for pos, op in enumerate(trace[:upto]):
             if op[0] == "mark":
                 if op[1] == "inv":
-                    inprog = op[2]
+                    inv_at[op[2]] = pos
+                    open_sets.add(op[2])
                 elif op[1] == "ret":
-                    returned[hist[op[2]][0]] = op[2]
-                    inprog = None
+                    ret_at[op[2]] = pos
+                    open_sets.discard(op[2])
                 elif op[1] == "refused":
-                    inprog = None
+                    open_sets.discard(op[2])
                 elif op[1] == "failed":
-                    returned.pop(hist[op[2]][0], None)
-                    inprog = None
+                    open_sets.discard(op[2])
+                    failed_at[hist[op[2]][0]] = pos
+        # a set that hit the injected I/O error may have damaged its key: promises made by sets of that key invoked
+        # before the failure are void (also when such a set only returns afterwards); a later set restores them
+        for s in [s for s in ret_at if inv_at[s] < failed_at.get(hist[s][0], -1)]:
+            del ret_at[s]
+        inprog_keys = {hist[s][0] for s in open_sets}
+        inprog = min(open_sets) if open_sets else None
+        returned = {}
+        for s in ret_at:
+            key = hist[s][0]
+            if not any(hist[s2][0] == key and inv_at[s2] > ret_at[s] for s2 in ret_at):
+                returned.setdefault(key, []).append(s)
         if inprog is not None:
             stats["probe_crash_inside_set"] += 1
         if upto > 0 and trace[upto - 1][0] in ("mark", "read", "exists", "getsize", "open"):
@@ -273,14 +317,13 @@ def _run_simfs(ch, cfg, hist, nextra):
             install_fs(fc, fs2)
             st2 = kvs.KeyValueStorage(ROOT)
             lazy_cache(st2.cache)
-            for key, idx in returned.items():
-                writing = inprog is not None and hist[inprog][0] == key
-                if writing:
-                    continue            # the key being written may read old, new or fail
-                role = "durability" if True else ""
+            for key, idxs in returned.items():
+                if key in inprog_keys:
+                    continue            # a key being written may read old, new or fail
+                idx = idxs[-1]
                 try:
                     got = st2.get(key)
-                    ok = canon(got) == canon_vals[idx]
+                    ok = any(canon(got) == canon_vals[s] for s in idxs)
                     outcome = "wrong-value"
                 except BaseException as e:   # noqa
                     ok = False
@@ -304,14 +347,17 @@ def _run_simfs(ch, cfg, hist, nextra):
     nontriv = len(hist) >= 2 or any("/" in k for k, _ in hist)
     # names under the store root, other than the key's own file, that a set created / wrote / renamed / removed
     foreign = set()
-    inprog_key = None
+    open_keys = {}
     for op in trace:
         if op[0] == "mark":
-            inprog_key = hist[op[2]][0] if op[1] == "inv" else None
-        elif inprog_key is not None and op[0] in ("creat", "trunc", "write", "rename", "unlink"):
+            if op[1] == "inv":
+                open_keys[op[2]] = hist[op[2]][0]
+            else:
+                open_keys.pop(op[2], None)
+        elif open_keys and op[0] in ("creat", "trunc", "write", "rename", "unlink"):
             for pth in (op[1:3] if op[0] == "rename" else op[1:2]):
                 rel = pth[len(ROOT) + 1:]
-                if rel != inprog_key:
+                if rel not in open_keys.values():
                     foreign.add(rel)
     return {"violations": violations, "stats": dict(stats), "evaluations": images, "digest": None, "foreign": sorted(foreign),
             "nontrivial_keys": [f"{shape}#{keypat}"] if nontriv else [], "state_keys": [shape], "steps": w.steps,
